@@ -92,7 +92,8 @@ ColFull == [name |-> Ascii("ab"), na |-> 3, fl |-> <<<<F0>>, <<FPi>>, <<FOne>>, 
 P1 == [version |-> 1, rows |-> 300, cols |-> <<ColFull, EmptyCol, [EmptyCol EXCEPT !.name = Ascii("n")]>>]
 P2 == [version |-> 1, rows |-> 0, cols |-> <<>>]
 
-Pack1 == << <<ObjTypeCommit, EncCommit(C1)>>, <<ObjTypeTable, EncTable(T1)>>, <<ObjTypeBlock, EncBlock(BlkC)>> >>
+\* the last object is EMPTY: its second header byte is the last byte of the stream and may arrive with EOF
+Pack1 == << <<ObjTypeCommit, EncCommit(C1)>>, <<ObjTypeTable, EncTable(T1)>>, <<ObjTypeBlock, EncBlock(BlkC)>>, <<ObjTypeBlock, <<>>>> >>
 Pack2 == << <<ObjTypeBlock, EncBlock(BlkA)>>, <<ObjTypeCommit, EncCommit(C2)>> >>
 Pkt1 == <<Ascii("want"), Ascii("have"), <<>>, Run(104, 300), Ascii("done"), <<>>>>   \* ends with a flush-pkt
 Pkt2 == <<Ascii("ack"), <<>>, Ascii("z")>>                                           \* ends with a data line
